@@ -1,7 +1,7 @@
 (* C02 -- validating entry points accept exactly the well-formed JSON texts.
    Statements only; proofs live in Model/. *)
 From Coq Require Import List NArith Arith.
-From SonicV Require Import Spec.Ref Model.SkipStr Model.SkipNum Model.Skip Model.SkipAll Model.RefSound.
+From SonicV Require Import Spec.Ref Model.SkipStr Model.SkipNum Model.Skip Model.SkipAll Model.RefSound Model.SkipComplete.
 Import ListNotations.
 Open Scope N_scope.
 
@@ -37,3 +37,13 @@ Proof. exact skip_sound_refuted. Qed.
 Theorem reference_accepts_only_wf : forall strict l v a b, ref_text strict l = Some (v, a, b) ->
   exists w1 tok w2, l = w1 ++ tok ++ w2 /\ all_ws w1 /\ Value tok /\ all_ws w2 /\ a = length w1 /\ b = (a + length tok)%nat.
 Proof. exact ref_text_sound. Qed.
+
+(* ... and it accepts all of them: every RFC 8259 value, preceded by whitespace and followed by a byte
+   that may follow a value, is skipped exactly, with fuel bounded by its length ... *)
+Theorem skip_accepts_every_value : forall v w rest fuel, Value v -> all_ws w -> follows rest -> (length v <= fuel)%nat ->
+  skip_value fuel (w ++ v ++ rest) = Some rest.
+Proof. exact skip_value_complete. Qed.
+(* ... so the model of the validate-and-skip entry points accepts EXACTLY whitespace value whitespace *)
+Theorem skip_accepts_exactly_wf : forall l, skip_text l = true <->
+  exists w1 v w2, l = w1 ++ v ++ w2 /\ all_ws w1 /\ Value v /\ all_ws w2.
+Proof. exact skip_text_iff. Qed.
